@@ -11,6 +11,20 @@ ASSUMPTIONS = ["the binary's Debug dump of the parsed Query identifies the parse
                "a partial split that leaves a multi-token word right after FROM is not generated (root paths with blanks are a lexer feature)"]
 
 
+def mech(tier, seed):
+    # the lexer mechanism: split invariance (with the named root-word deviation) on all symbol strings up to MaxLen
+    # (coverage instrumentation of the recursive scanner is very slow: off)
+    return [dict(module="MC_Lexer", cfg="MC_Lexer_q", workers=8, actions=[], coverage=False),
+            # vacuity guard: without the named root-word deviation the law must fail
+            dict(module="MC_Lexer", cfg="MC_Lexer_strict", workers=2, actions=[], coverage=False, expect_violation="SplitInvarianceStrict")]
+
+
+def conformance(tier, seed):
+    # spec -> implementation: every generated string is lexed by the real binary (debug dump) and by Lexer!LexAll
+    return [dict(name="Lexer", module="MC_Lexer", cfg="MC_Lexer_gen", judge="Judge_Lexer", workers=6,
+                 limit=6000 if tier == "quick" else None)]
+
+
 def generators(tier, seed):
     return [dict(module="MC_C11", cfg="MC_C11_q" if tier == "quick" else "MC_C11_t", workers=4)]
 
